@@ -374,6 +374,17 @@ func alts(x felt.Felt, pool []felt.Felt) []felt.Felt {
 
 var both = []int{keyClaimed, keyRecomputed}
 
+// keyingsFor: the j-th alteration of a felt field. Under the claimed keying (node stays under its attached node_hash)
+// every content alteration dies at the same hash comparison whatever value is substituted, so only the first
+// alteration (+1) is run under both keyings; the substitutions from the pool run under the recomputed keying, where
+// the altered node is a well-formed node of its own.
+func keyingsFor(j int) []int {
+	if j == 0 {
+		return both
+	}
+	return []int{keyRecomputed}
+}
+
 func pathFlipPositions(l int) []int {
 	set := map[int]bool{}
 	for _, p := range []int{0, 1, l / 2, l - 2, l - 1} {
@@ -400,15 +411,15 @@ func forEachCorruption(nodes []pnode, pool []felt.Felt, f func(class string, nod
 	}
 	for i, n := range nodes {
 		if !n.Edge {
-			for _, a := range alts(n.A, pool) {
+			for j, a := range alts(n.A, pool) {
 				m := n
 				m.A = a
-				f("binary.left", with(i, m), both)
+				f("binary.left", with(i, m), keyingsFor(j))
 			}
-			for _, b := range alts(n.B, pool) {
+			for j, b := range alts(n.B, pool) {
 				m := n
 				m.B = b
-				f("binary.right", with(i, m), both)
+				f("binary.right", with(i, m), keyingsFor(j))
 			}
 			m := n
 			m.A, m.B, m.AK, m.BK = n.B, n.A, n.BK, n.AK
@@ -418,10 +429,10 @@ func forEachCorruption(nodes []pnode, pool []felt.Felt, f func(class string, nod
 			f("binary->edge", with(i, pnode{Edge: true, A: n.A, AK: n.AK, Length: 1, Claimed: n.Claimed}), both)
 			f("binary->edge", with(i, pnode{Edge: true, A: n.B, AK: n.BK, B: fv(1), Length: 1, Claimed: n.Claimed}), both)
 		} else {
-			for _, a := range alts(n.A, pool) {
+			for j, a := range alts(n.A, pool) {
 				m := n
 				m.A = a
-				f("edge.child", with(i, m), both)
+				f("edge.child", with(i, m), keyingsFor(j))
 			}
 			path := n.B.BigInt(new(big.Int))
 			for _, p := range pathFlipPositions(n.Length) {
@@ -666,6 +677,14 @@ func craftedCases(r *ev.Run) []*caseT {
 	return out
 }
 
+// one memoising hasher per trie (a hasher is not thread safe)
+func getHasher(pose bool) *hasher {
+	_, rh := hashFns(pose)
+	return newHasher(rh)
+}
+
+func putHasher(bool, *hasher) {}
+
 func runMembership(r *ev.Run) {
 	st := &memberStats{outcomes: tally{}, shapes: map[string]bool{}}
 	cases := append(smallCases(r), craftedCases(r)...)
@@ -679,8 +698,9 @@ func runMembership(r *ev.Run) {
 			mu.Unlock()
 			return
 		}
-		_, rh := hashFns(cases[i].pose)
-		runCase(r, cases[i], newHasher(rh), st)
+		hs := getHasher(cases[i].pose)
+		runCase(r, cases[i], hs, st)
+		putHasher(cases[i].pose, hs)
 	})
 	if skipped > 0 {
 		r.Incomplete(fmt.Sprintf("membership: %d of %d tries not processed (deadline)", skipped, len(cases)))
